@@ -34,8 +34,15 @@ class Check(PropCheck):
             mode = rng.choice(['exact', 'mod'])
             t = gen.rand_tree(rng, n, mode, p_multi=rng.choice([0, 0.3, 0.6]), p_unary=rng.choice([0, 0.15]), internal_names=0.3)
             ops = [gen.parse_op(gen.to_newick(t))] if rng.random() < 0.7 else ['new'] + gen.build_ops(t)
-            if rng.random() < 0.2:
+            r2 = rng.random()
+            if r2 < 0.2:
                 ops += ['pick nonroot %d' % rng.randint(0, 10 ** 6), 'prune $0']
+            elif r2 < 0.4:
+                ops += ['pick sibpair %d' % rng.randint(0, 10 ** 6), 'merge $0 $1 %s %s %s -' % (vf.enc_len(0.5), vf.enc_len(1.5), vf.enc_len(0.25))]
+            elif r2 < 0.55:
+                ops += ['size', 'resolve %d' % rng.randint(0, 10 ** 6), 'dump']
+            elif r2 < 0.62:
+                ops += ['pick nonroot %d' % rng.randint(0, 10 ** 6), 'set_pedge $0 ' + vf.enc_len(gen.exact_len(rng))]
             f = rng.choice([2.0, 0.5, 10.0, 0.001, -1.0, 3.7])
             ops += ['dump', 'layout', 'layout ' + vf.enc_len(f)]
             if rng.random() < 0.1:
